@@ -400,3 +400,8 @@ V('NOMOVE_ror_public_mutators', ['C06'], 'bitarray_.py', "        rhs = self._sl
 V('NOMOVE_count_seeks', ['C06'], 'bitstream.py', "    def __repr__(self) -> str:\n", "    def count(self, value: Any) -> int:\n        self._setbitpos(0)\n        return super().count(value)\n\n    def __repr__(self) -> str:\n", ['NOMOVE'])
 V('B1_property_path_no_pos', ['C06', 'C20'], 'bitstream.py', "        length_before = len(self)\n        super().__setattr__(attribute, value)\n        if len(self) != length_before:\n            self._pos = 0\n\n    def __setitem__", "        super().__setattr__(attribute, value)\n\n    def __setitem__", ['B1'])
 V('N1_generator_option_assert', ['C20', 'C12'], 'bits.py', "                      bytealigned: bool) -> Iterable[int]:\n        assert start <= end\n\n        new_slice", "                      bytealigned: bool) -> Iterable[int]:\n        assert start <= end\n        assert bitstring.options.lsb0\n\n        new_slice", ['N1'])
+V('IDX_insert_no_normalisation', ['C14'], 'array_.py', "        if i < 0:\n            i = max(i + len(self), 0)  # Negative positions count items from the end, like a list\n", "", ['IDX'])
+V('IDX_getitem_no_normalisation', ['C14'], 'array_.py', "            if key < 0:\n                key += len(self)\n            if key < 0 or key >= len(self):\n                raise IndexError(f\"Index {key} out of range for Array of length {len(self)}.\")\n            return self._dtype.read_fn", "            if key >= len(self):\n                raise IndexError(f\"Index {key} out of range for Array of length {len(self)}.\")\n            return self._dtype.read_fn", ['IDX'])
+V('TY1_count_isnan_any_value', ['C14'], 'array_.py', "        if isinstance(value, float) and math.isnan(value):", "        if math.isnan(value):", ['TY1'])
+V('D5_join_next_unguarded', ['C20'], 'bits.py', "            try:\n                s._addright(Bits._create_from_bitstype(next(sequence_iter)))\n            except StopIteration:\n                return s", "            s._addright(Bits._create_from_bitstype(next(sequence_iter)))", ['D5'])
+V('D5_float_pack_unguarded', ['C20', 'C18'], 'bitstore_helpers.py', "    try:\n        b = struct.pack(fmt, f)\n    except OverflowError:\n        # If float64 doesn't fit it automatically goes to 'inf'. This reproduces that behaviour for other types.\n        b = struct.pack(fmt, float('inf') if f > 0 else float('-inf'))\n    return BitStore.frombytes(b)", "    b = struct.pack(fmt, f)\n    return BitStore.frombytes(b)", ['D5'])
